@@ -977,6 +977,89 @@ class Hooks:
         pass
 
 
+class Observe(Hooks):
+    """Reads everything a user interface would read, at every quiescent
+    state: every public property and every read-only accessor for every
+    player / board / hand type.  Looking must not change what happens."""
+
+    _props = None
+
+    def __init__(self, phase=0):
+        self.calls = 0
+        self.k = phase
+
+    def quiescent(self, it):
+        # every third quiescent state (phase chosen by the case): cheap
+        # enough to run on every case, dense enough to fall between any two
+        # particular operations in a third of the cases
+        self.k += 1
+        if self.k % 3:
+            return
+        s = it.state
+        cls = type(s)
+        if Observe._props is None:
+            Observe._props = [n for n in dir(cls) if not n.startswith('_')
+                              and isinstance(getattr(cls, n), property)]
+
+        def read(f, *a):
+            self.calls += 1
+            try:
+                r = f(*a)
+                if hasattr(r, '__next__'):
+                    r = tuple(r)
+                return r
+            except (ValueError, AssertionError, IndexError, KeyError,
+                    TypeError):
+                return None
+
+        for n in Observe._props:
+            read(getattr, s, n)
+        for i in s.player_indices:
+            for f in (s.get_censored_hole_cards, s.get_down_cards,
+                      s.get_up_cards, s.can_win_now, s.get_effective_ante,
+                      s.get_effective_blind_or_straddle):
+                read(f, i)
+            if sum(s.statuses) > 1 and s.actor_index is not None:
+                read(s.get_effective_stack, i)
+        nb = read(lambda: s.board_count) or 0
+        for j in range(nb):
+            read(s.get_board_cards, j)
+            for k in s.hand_type_indices:
+                read(s.get_up_hands, j, k)
+                for i in s.player_indices:
+                    read(s.get_hand, i, j, k)
+                    read(s.get_up_hand, i, j, k)
+        read(s.get_dealable_cards)
+        read(s.get_dealable_cards, 1)
+
+
+class Chain(Hooks):
+    """Several hook objects as one."""
+
+    def __init__(self, *hooks):
+        self.hooks = [h for h in hooks if h is not None]
+
+    def before(self, interp, kind, args):
+        for h in self.hooks:
+            h.before(interp, kind, args)
+
+    def after(self, interp, kind, args, result):
+        for h in self.hooks:
+            h.after(interp, kind, args, result)
+
+    def quiescent(self, interp):
+        for h in self.hooks:
+            h.quiescent(interp)
+
+
+def observed_phase(cfg, every=4):
+    """In one case out of ``every`` (a pure function of the config) the run
+    is an *observed* one: a "user interface" reads every public property and
+    accessor between the operations.  Returns the phase, or None."""
+    d = cfg.get('deck_seed', 0)
+    return d // every if d % every == 1 else None
+
+
 # ---------------------------------------------------------------------------
 # running a case with the warning regime and classification
 
@@ -1012,11 +1095,15 @@ class CaseResult:
         self.exc_stage = None
 
 
-def run_case(case, hooks=None, observers=(), mask=None, max_steps=None):
+def run_case(case, hooks=None, observers=(), mask=None, max_steps=None,
+             observed=None):
     """Run (config, tape) to the end.  Never raises engine exceptions;
-    harness errors propagate."""
+    harness errors propagate.  ``observed`` (a phase) additionally reads every
+    public accessor at every third quiescent state."""
     import signal
     cfg = case['config']
+    if observed is not None:
+        hooks = Chain(Observe(observed), hooks)
     res = CaseResult()
     patch_shuffled(True)
     old = signal.signal(signal.SIGALRM, _alarm)
